@@ -266,6 +266,130 @@ class Gen:
             self.emit(0, 'find %d' % k)
         return '\n'.join(hdr + self.lines) + '\n'
 
+class CGen(Gen):
+    """scripts over the C interface: int keys hashed by std::hash<int> (identity), spb 4"""
+    def __init__(self, rng, cfg, **kw):
+        super().__init__(rng, cfg, **kw)
+        r = rng
+        style = r.choice(['dense', 'stride', 'stride', 'mixed'])
+        n = self.nkeys + 3
+        if style == 'dense':
+            self.keyset = list(range(1, n + 1))
+        elif style == 'stride':
+            st = 1 << r.choice([2, 3, 4, 8, 12])
+            base = r.randrange(0, 7)
+            self.keyset = [base + j * st for j in range(n)]
+        else:
+            self.keyset = [r.randrange(0, 1 << 20) for _ in range(n)]
+            self.keyset = list(dict.fromkeys(self.keyset))
+            while len(self.keyset) < n:
+                self.keyset.append(len(self.keyset) + (1 << 21))
+        self.have_file = [False] * 4
+
+    def k(self):
+        if self.rng.random() < 0.03:
+            return self.keyset[self.nkeys + self.rng.randrange(3)]
+        return self.keyset[self.rng.randrange(self.nkeys)]
+
+    def fn(self):
+        return self.rng.choice(['noop', 'add:1', 'add:-3', 'set:7', 'eraseifeq:7', 'adderaseeven:1'])
+
+    def normal_op(self, t):
+        r = self.rng
+        x = r.randrange(100)
+        if x < 40:
+            c = r.randrange(4)
+            if c <= 1: self.emit(t, 'insert %d %d' % (self.k(), self.v()))
+            elif c == 2: self.emit(t, 'ioa %d %d' % (self.k(), self.v()))
+            else: self.emit(t, 'upsert %d %s 0 %d' % (self.k(), self.fn(), self.v()))
+        elif x < 55:
+            self.emit(t, r.choice(['find', 'contains', 'findfn']) + ' %d' % self.k())
+        elif x < 67:
+            self.emit(t, 'erase %d' % self.k())
+        elif x < 73:
+            self.emit(t, 'erasefn %d %s' % (self.k(), self.fn()))
+        elif x < 80:
+            self.emit(t, 'update %d %d' % (self.k(), self.v()))
+        elif x < 86:
+            self.emit(t, 'updatefn %d %s' % (self.k(), r.choice(['noop', 'add:1', 'set:7'])))
+        elif x < 96:
+            self.resize_op(t, '')
+        else:
+            self.emit(t, 'clear')
+
+    def locked_op(self, t):
+        r = self.rng
+        x = r.randrange(100)
+        if x < 22: self.emit(t, 'l.insert %d %d' % (self.k(), self.v()))
+        elif x < 30: self.emit(t, 'l.erase %d' % self.k())
+        elif x < 40: self.emit(t, 'l.find %d %d' % (self.k(), r.randrange(3)))
+        elif x < 46: self.resize_op(t, 'l.')
+        elif x < 48: self.emit(t, 'l.clear')
+        elif x < 56: self.emit(t, 'it.begin %d' % r.randrange(3))
+        elif x < 60: self.emit(t, 'it.end %d' % r.randrange(3))
+        elif x < 70: self.emit(t, 'it.inc %d' % r.randrange(3))
+        elif x < 76: self.emit(t, 'it.dec %d' % r.randrange(3))
+        elif x < 82: self.emit(t, 'it.get %d' % r.randrange(3))
+        elif x < 85: self.emit(t, 'it.set %d %d' % (r.randrange(3), self.v()))
+        elif x < 88: self.emit(t, 'it.eq %d %d' % (r.randrange(3), r.randrange(3)))
+        elif x < 93: self.emit(t, 'l.eraseit %d %d' % (r.randrange(3), r.randrange(3)))
+        elif x < 97: self.emit(t, 'l.trav')
+        else: self.emit(t, 'l.rtrav')
+
+    def file_ops(self):
+        r = self.rng
+        f = r.randrange(2)
+        self.emit(0, 'c.write %d' % f)
+        self.have_file[f] = True
+        # every truncation offset of the file (its length is at most 8 + 8 * #keys), then the full file
+        maxlen = 8 + 8 * (self.nkeys + 3)
+        for nb in range(0, maxlen + 1):
+            self.emit(0, 'c.read %d %d 2' % (f, nb))
+            self.emit(2, 'c.free')
+        self.emit(0, 'c.read %d full 1' % f)
+        self.emit(1, 'lock'); self.emit(1, 'l.trav'); self.emit(1, 'unlock')
+        for k in self.keyset[:self.nkeys]:
+            self.emit(1, 'find %d' % k)
+        self.emit(1, 'c.free')
+
+    def generate(self):
+        r = self.rng
+        c = self.cfg
+        hdr = ['# capi profile=%s nkeys=%d' % (self.profile, self.nkeys),
+               'cfg %d %d %d %d %d' % (c['spb'], c['lbits'], c['simple'], c['nothrow'], c['destructive'])]
+        self.emit(0, 'c.init %d' % r.choice([0, 1, 4, 5, 8, 16, 17, 32, 64]))
+        n = 0
+        files_done = 0
+        while n < self.nops:
+            n += 1
+            if self.active[0]:
+                if r.random() < 0.07:
+                    self.emit(0, 'unlock'); self.active[0] = False
+                elif r.random() < 0.04 and files_done < 2:
+                    self.file_ops(); files_done += 1
+                else:
+                    self.locked_op(0)
+            else:
+                if r.random() < 0.08:
+                    self.emit(0, 'lock'); self.active[0] = True
+                    self.emit(0, 'l.trav'); self.emit(0, 'l.rtrav')
+                else:
+                    self.normal_op(0)
+        if not self.active[0]:
+            self.emit(0, 'lock')
+        self.emit(0, 'l.trav')
+        if files_done == 0:
+            self.file_ops()
+        self.emit(0, 'unlock')
+        for k in self.keyset[:self.nkeys]:
+            self.emit(0, 'find %d' % k)
+        self.emit(0, 'c.free')
+        return '\n'.join(hdr + self.lines) + '\n'
+
+def gen_capi_script(seed, cfg, **kw):
+    rng = random.Random(seed)
+    return CGen(rng, cfg, **kw).generate()
+
 def gen_script(seed, cfg, **kw):
     rng = random.Random(seed)
     return Gen(rng, cfg, **kw).generate()
